@@ -2,6 +2,7 @@ package checks
 
 import (
 	"fmt"
+	"strings"
 
 	"github.com/ja7ad/otp"
 	"github.com/ja7ad/otp/verifharness/ev"
@@ -11,23 +12,54 @@ import (
 func init() { register("C14", "exploration", c14) }
 
 type c14Case struct {
-	Shape shape  `json:"shape"`
-	Lens  [5]int `json:"lens"`  // counter, challenge, password, session, timestamp; -1 = nil
-	Entry string `json:"entry"` // "input.Validate", "generate", "validate", "suite.Validate", "newsuite"
+	Shape   shape  `json:"shape"`
+	Lens    [5]int `json:"lens"`              // counter, challenge, password, session, timestamp; -1 = nil
+	Entry   string `json:"entry"`             // "input.Validate", "generate", "validate", "suite.Validate", "newsuite"
+	Content int    `json:"content,omitempty"` // index into c14Contents
 }
 
-func inputOfLens(l [5]int) oin {
-	mk := func(n int, seed byte) []byte {
-		if n < 0 {
-			return nil
-		}
+// c14Contents are the byte contents a field can be filled with: admission is about LENGTHS in bytes, whatever
+// the bytes are (text in any encoding, binary, blanks).
+var c14Contents = []string{"pattern", "utf8-2byte", "utf8-3byte", "utf8-4byte", "zeros", "ff", "ascii-digits", "blanks", "utf8-mixed", "continuation-bytes"}
+
+func fillContent(n int, seed byte, content int) []byte {
+	if n < 0 {
+		return nil
+	}
+	unit := ""
+	switch content {
+	case 1:
+		unit = "\u00e9"
+	case 2:
+		unit = "\u20ac"
+	case 3:
+		unit = "\U0001F600"
+	case 4:
+		return make([]byte, n)
+	case 5:
+		return []byte(strings.Repeat("\xff", n))
+	case 6:
+		unit = "0123456789"
+	case 7:
+		unit = " \t"
+	case 8:
+		unit = "a\u00e9\u20acb\U0001F600"
+	case 9:
+		unit = "\x80\xbf\xa9"
+	default:
 		return patt(n, seed)
 	}
-	return oin{mk(l[0], 1), mk(l[1], 2), mk(l[2], 3), mk(l[3], 4), mk(l[4], 5)}
+	return []byte(strings.Repeat(unit, n/len(unit)+1))[:n]
+}
+
+func inputOfLens(l [5]int) oin { return inputOf(l, 0) }
+
+func inputOf(l [5]int, content int) oin {
+	return oin{fillContent(l[0], 1, content), fillContent(l[1], 2, content), fillContent(l[2], 3, content), fillContent(l[3], 4, content), fillContent(l[4], 5, content)}
 }
 
 func admit(c c14Case) (obs, bad string) {
-	in := inputOfLens(c.Lens)
+	in := inputOf(c.Lens, c.Content)
 	rs := c.Shape.ref()
 	var accepted bool
 	var err error
@@ -88,9 +120,9 @@ func c14(r *ev.Run) {
 			for f := 0; f < 5; f++ {
 				l := good
 				l[f] = []int{0, 7, 129, 9, 21}[f]
-				cs = append(cs, c14Case{sh, l, "input.Validate"}, c14Case{sh, l, "generate"})
+				cs = append(cs, c14Case{sh, l, "input.Validate", 0}, c14Case{sh, l, "generate", 0})
 			}
-			cs = append(cs, c14Case{sh, good, "input.Validate"}, c14Case{sh, good, "generate"}, c14Case{sh, good, "validate"}, c14Case{sh, good, "suite.Validate"})
+			cs = append(cs, c14Case{sh, good, "input.Validate", 0}, c14Case{sh, good, "generate", 0}, c14Case{sh, good, "validate", 0}, c14Case{sh, good, "suite.Validate", 0})
 		}
 		afterWarmups(r, "admission-after-other-operations", cs, admit)
 	}
@@ -113,7 +145,7 @@ func c14(r *ev.Run) {
 								lens[2] = p
 							}
 							for _, e := range []string{"suite.Validate", "newsuite", "generate", "validate"} {
-								c := c14Case{sh, lens, e}
+								c := c14Case{sh, lens, e, 0}
 								obs, bad := admit(c)
 								local++
 								if bad != "" {
@@ -129,7 +161,7 @@ func c14(r *ev.Run) {
 								x := sh
 								x.Text = text
 								for _, e := range []string{"rawvalue.Validate", "generate-rawvalue"} {
-									c := c14Case{x, lens, e}
+									c := c14Case{x, lens, e, 0}
 									obs, bad := admit(c)
 									local++
 									if bad != "" {
@@ -185,7 +217,7 @@ func c14(r *ev.Run) {
 			base[2] = p
 		}
 		run := func(l [5]int, e string) {
-			c := c14Case{sh, l, e}
+			c := c14Case{sh, l, e, 0}
 			obs, bad := admit(c)
 			local++
 			if bad != "" {
@@ -201,6 +233,21 @@ func c14(r *ev.Run) {
 				if n < 0 || inSetInt(n, boundaryLens) {
 					run(l, "generate")
 					run(l, "validate")
+				}
+			}
+			// every content class at the boundary lengths: admission must not depend on what the bytes are
+			for ct := 1; ct < len(c14Contents); ct++ {
+				for _, n := range boundaryLens {
+					l := base
+					l[f] = n
+					for _, e := range []string{"input.Validate", "generate"} {
+						c := c14Case{Shape: sh, Lens: l, Content: ct, Entry: e}
+						obs, bad := admit(c)
+						local++
+						if bad != "" {
+							r.Fail("admission", fmt.Sprintf("input-clause %s %s lens=%v content=%s", e, sh.sig(), l, c14Contents[ct]), c, bad, obs)
+						}
+					}
 				}
 			}
 			// lengths congruent to an admissible one modulo 2^8 / 2^16 (narrowed length checks)
@@ -245,8 +292,8 @@ func c14(r *ev.Run) {
 	})
 	sh := shapes[len(shapes)-1]
 	sh.Text, sh.Digits = "s", 6
-	r.Sample(map[string]any{"case": c14Case{sh, [5]int{8, 129, 20, 5, 8}, "input.Validate"}, "want_admitted": false})
-	r.Sample(map[string]any{"case": c14Case{shape{Text: "s", Hash: 0, Digits: 3, Q: true, QF: 1}, [5]int{8, 16, 20, 5, 8}, "suite.Validate"}, "want_admitted": false})
+	r.Sample(map[string]any{"case": c14Case{sh, [5]int{8, 129, 20, 5, 8}, "input.Validate", 0}, "want_admitted": false})
+	r.Sample(map[string]any{"case": c14Case{shape{Text: "s", Hash: 0, Digits: 3, Q: true, QF: 1}, [5]int{8, 16, 20, 5, 8}, "suite.Validate", 0}, "want_admitted": false})
 	r.Set("alphabet", map[string]any{"suite clause": "32 subsets x challenge format 0..6 x password hash 0..3 x digits -1..12 x hash 0..4 x time step {-1,0,1,60} through SuiteConfig.Validate, NewSuite, GenerateOCRA, ValidateOCRA", "input clause": fmt.Sprintf("per usable (subset, format, password hash) shape: every length -1(nil),0..140 of each field alone; every pair of fields x every pair of lengths over %d lengths; boundary set through GenerateOCRA/ValidateOCRA; unselected fields nil/0/1/8/200", len(pairLens))})
 	r.Rule("every configuration / length combination of the grid through the real admission paths vs an admission predicate written from the property text; distinct = distinct usable suite shapes + field shapes")
 	r.Assume("undefined enum values of challenge format / password hash are outside the property")
